@@ -26,10 +26,13 @@ CHECKS = {
     'C04': ('TLA+ token-conservation predicate (C04Event) evaluated by TLC on drop-tracked keys/values of every call of every TLC-generated behaviour, cache dropped after every test', '4 C04', 'model_checking', ''),
     'C16': ('TLA+ C16Step: clone in every reachable state (TLC closure), lock-step operation on original and clone, TLC validates equality/independence', '4 C16', 'model_checking', ''),
     'C17': ('TLA+ PairTrace.tla: the same TLC-generated drivers executed under five BuildHashers and a shuffled heap; TLC checks the traces are equal record by record', '4 C17', 'model_checking', ''),
+    'C11': ('TLA+ TinyLFU.tla (abstract exact-count estimator + colliding-cell model checked by TLC for every collision structure) + TLC trace validation of the real TinyLFU (std and no_std builds): per-step observation relation and exact-count monitor', '4 C11', 'model_checking', ''),
+    'C14': ('TLA+ Iter.tla cursor machine (TLC: every word over {next,next_back}) + IterTrace.tla: TLC recomputes the specification list by folding the policy spec over the path and validates every logged iterator run (12 families x lists x words) in every reachable state', '4 C14', 'model_checking', ''),
+    'C20': ('TLA+ SampledLFU.tla (used defined as the sum of costs) + TLC closure + TLC trace validation of every transition and of fill_sample', '4 C20', 'model_checking', ''),
     'C15': ('TLA+ RawLRU.tla callback sequence + TLC trace validation (PROP=C15)', '4 C15', 'model_checking', ''),
 }
 NOT_YET = {}
-for p in ['C11', 'C14', 'C18', 'C19', 'C20']:
+for p in ['C18', 'C19']:
     NOT_YET[p] = 'check under construction in this round (specification module and harness sub-command not committed yet); planned per DESIGN.md section 4'
 
 def main():
